@@ -6,8 +6,11 @@ link whose faults are *loss* (row -> NaN; a *torn* row loses only some of its fo
 components) and *signflip* (row -> -row); the
 repair stage is the real QuaternionArray.slerp_nan / remove_jumps (and
 get_nan_intervals underneath).  SLERP geometry is checked on the endpoint pairs
-and weights the repair produces; arbitrary weight vectors in isolation are input
-generation and are not claimed.
+and weights the repair produces (both package SLERPs, the gap's weights and the
+two end weights 0 and 1 in one call); arbitrary weight vectors in isolation are
+input generation and are not claimed.  A record may begin with lost rows
+(warm-up; those rows are not judged) and may be hit by a second burst of losses
+after it has been repaired once (same object, repaired again).
 
 Level: fault_enumeration -- for N <= 10 (quick) / 12 (thorough) every interior
 loss mask x 4 spin rates x 5 sign-flip patterns, plus seeded long records.
@@ -77,7 +80,8 @@ class Check:
             'loss runs; distinct = distinct (N, rate, flip pattern, mask); non-trivial = at least one row lost or flipped')
     assumptions = [
         'partial claim: the free function slerp() on arbitrary endpoint pairs and weight vectors is input generation and is not decided here; only the endpoint pairs and weights that the repair of a lossy record produces',
-        'first and last rows of a record are never lost (the property speaks of interior NaN runs)',
+        'the last row of a record is never lost and lost leading rows are not judged (the property speaks of interior NaN runs); a leading run must leave the repair of the interior gaps intact',
+        'second repair round: 1-3 further interior rows are lost after an in-place repair of the same object and the repair is called again (every third case as inplace=False, every second case after a preview call)',
         'fill tolerance 1e-5 rad (error of the linear shortcut taken above cos = 0.9995); unit norm 1e-9',
         'sign flips are judged as rotations: a filled row may be the negative of the reference interpolant',
         'a record whose consecutive true rows are more than 180 degrees of rotation apart has no well-defined sign continuity: spin rates stay below pi rad per tick',
@@ -125,6 +129,11 @@ class Check:
                                     'flip_pattern': fl, 'rate': rate})
                         if mask and fl in ('none', 'tail') and n <= 8:
                             out.append(dict(out[-1], torn=n * 100 + len(out) % 97))       # same mask, some lost rows only torn
+                        if mask and fl == 'none' and rate == 0.5 and n >= 6:
+                            base = out[-2] if 'torn' in out[-1] else out[-1]
+                            out.append(dict(base, second=len(out)))                       # a second burst of losses on the same object
+                            if min(mask) >= 3:
+                                out.append(dict(base, lead=2))                            # the record begins with two lost rows
         # records whose consecutive rows are *exactly* orthogonal (dot product 0.0): walks through basis quaternions
         for n in range(3, min(nmax, 7) + 1):
             interior = list(range(1, n - 1))
@@ -148,7 +157,8 @@ class Check:
             loss.update(range(s, min(n - 1, s + ln)))
         fl = rnd.choice(FLIPS)
         return {'n': n, 'q0': W.rand_unit(rnd, 4), 'w': [rate * x for x in W.rand_unit(rnd)], 'dt': 1.0, 'loss': sorted(loss),
-                'flips': self._flip_list(fl, n, rnd), 'flip_pattern': fl, 'rate': rate, 'torn': rnd.choice([0, 0, rnd.randrange(1, 1 << 20)])}
+                'flips': self._flip_list(fl, n, rnd), 'flip_pattern': fl, 'rate': rate, 'torn': rnd.choice([0, 0, rnd.randrange(1, 1 << 20)]),
+                'lead': rnd.choice([0, 0, 0, 1, 2]) if n >= 12 else 0, 'second': rnd.choice([0, rnd.randrange(1, 1 << 20)])}
 
     # ------------------------------------------------------------------
     def run(self, scn):
@@ -158,8 +168,9 @@ class Check:
         viol = []
         n = scn['n']
         Q, sent, lossy = record(scn)
-        lost = sorted(scn['loss'])
-        valid = [i for i in range(n) if i not in set(lost)]
+        lead = list(range(0, int(scn.get('lead', 0))))       # a record that begins with lost rows (sensor warm-up): those rows are not
+        lost = sorted(set(scn['loss']) - set(lead))          # judged, but they must not disturb the repair of the interior gaps
+        valid = [i for i in range(n) if i not in set(lost) and i not in set(lead)]
         trigger = ('no-loss' if not lost else 'loss') + ('+flips' if scn['flips'] else '')
         stats = {'cases': 1, 'rows': n, 'rows_lost': len(lost), 'rows_flipped': len(scn['flips']), 'gaps': 0, 'filled_rows_checked': 0,
                  'lerp_branch': 0, 'slerp_branch': 0}
@@ -175,6 +186,8 @@ class Check:
             for i in lost:
                 for c in torn_components(scn, i):       # a torn row has lost only some of its components
                     qa[i, c] = np.nan
+            for i in lead:
+                qa[i] = np.nan
             return qa
 
         # --- slerp_nan, both calling conventions
@@ -187,7 +200,7 @@ class Check:
                 if inplace and ret is not None:
                     viol.append(v('slerp_nan', 'inplace-return', 0, 'slerp_nan(inplace=True) returned a value'))
             except Exception as e:      # noqa: BLE001
-                viol.append(v('slerp_nan', f'crash:{type(e).__name__}', 0, f'slerp_nan(inplace={inplace}) on a record with {len(lost)} lost rows raised {type(e).__name__}: {e}'))
+                viol.append(v('slerp_nan', f'crash:{type(e).__name__}', 0, f'slerp_nan(inplace={inplace}) on a record with {len(lost)} lost rows{" and a leading run of " + str(len(lead)) if lead else ""} raised {type(e).__name__}: {e}'))
         if False in results and True in results and results[False].shape == results[True].shape:
             if not np.array_equal(results[False], results[True], equal_nan=True):
                 viol.append(v('slerp_nan', 'inplace-differs', 0, 'inplace=True and inplace=False give different records'))
@@ -214,6 +227,7 @@ class Check:
                         gaps[-1].append(i)
                     else:
                         gaps.append([i])
+                gaps = [gp for gp in gaps if gp[0] - 1 >= len(lead)]     # a judged gap has a valid row on its left
                 stats['gaps'] = len(gaps)
                 for gap in gaps:
                     if viol:
@@ -228,13 +242,24 @@ class Check:
                     # the same endpoints and weights through the package's other SLERP (ahrs.common.orientation.slerp)
                     try:
                         import ahrs.common.orientation as ORI
-                        alt = np.asarray(ORI.slerp(pa.copy(), pb.copy(), np.linspace(0, 1, L + 2)[1:-1]), dtype=float)
-                        for j in range(1, L + 1):
-                            ref = qm.slerp_ref(pa, pb, j / (L + 1.0))
-                            if not np.all(np.isfinite(alt[j - 1])) or abs(float(alt[j - 1] @ alt[j - 1]) - 1.0) > 1e-9 or not qm.rot_angle(alt[j - 1], ref) <= FILL_TOL:
-                                viol.append(v('orientation.slerp', 'off-geodesic', gap[j - 1], f'orientation.slerp at weight {j}/{L + 1} between {pa} and {pb} (dot {float(pa @ pb):.6g}) gives {alt[j - 1]}, the shortest-arc interpolant is {ref}'))
+                        import ahrs.common.quaternion as QMOD
+                        tfull = np.linspace(0, 1, L + 2)           # the gap's weights and the two endpoints (weights 0 and 1) in one call
+                        for fname, fn in (('orientation.slerp', ORI.slerp), ('quaternion.slerp', QMOD.slerp)):
+                            alt = np.asarray(fn(pa.copy(), pb.copy(), tfull.copy()), dtype=float)
+                            for j in range(0, L + 2):
+                                ref = qm.slerp_ref(pa, pb, j / (L + 1.0))
+                                if not np.all(np.isfinite(alt[j])) or abs(float(alt[j] @ alt[j]) - 1.0) > 1e-9 or not qm.rot_angle(alt[j], ref) <= FILL_TOL:
+                                    viol.append(v(fname, 'off-geodesic', gap[min(max(j, 1), L) - 1], f'{fname} at weight {j}/{L + 1} between {pa} and {pb} (dot {float(pa @ pb):.6g}) gives {alt[j]}, the shortest-arc interpolant is {ref}'))
+                                    break
+                            else:
+                                # one call is one path: consecutive interpolants do not change sign (endpoints not exactly orthogonal)
+                                steps = np.einsum('ij,ij->i', alt[1:], alt[:-1])
+                                if abs(float(pa @ pb)) > 1e-9 and np.any(steps < -1e-12):
+                                    k = int(np.argmin(steps))
+                                    viol.append(v(fname, 'jump-in-path', gap[min(max(k, 1), L) - 1], f'{fname} between {pa} and {pb} (dot {float(pa @ pb):.6g}): the interpolants at weights {k}/{L + 1} and {k + 1}/{L + 1} have dot product {steps[k]:.6f}'))
+                            if viol:
                                 break
-                        stats['alt_slerp_rows_checked'] = stats.get('alt_slerp_rows_checked', 0) + L
+                        stats['alt_slerp_rows_checked'] = stats.get('alt_slerp_rows_checked', 0) + 2 * (L + 2)
                     except Exception as e:      # noqa: BLE001
                         viol.append(v('orientation.slerp', f'crash:{type(e).__name__}', gap[0], f'{type(e).__name__}: {e}'))
                     if viol:
@@ -259,6 +284,40 @@ class Check:
                         if min(qm.rot_angle(row, pa), qm.rot_angle(row, pb)) > qm.rot_angle(pa, pb) + 1e-9:
                             viol.append(v('slerp_nan', 'not-on-minor-arc', i, f'filled row {i} is farther from both endpoints than they are from each other'))
                             break
+        # --- a second burst of losses on the *same* object after the first repair: repaired like the first
+        if not viol and lost and not lead and scn.get('second') and scn['rate'] < math.pi:
+            try:
+                qa = build()
+                if scn['second'] % 2:
+                    qa.slerp_nan(inplace=False)                  # a preview first, then the in-place call
+                qa.slerp_nan(inplace=True)
+                first = np.array(qa.array, dtype=float)
+                r2 = random.Random(f"second/{scn['second']}")
+                lost2 = sorted(r2.sample(range(1, n - 1), min(n - 2, r2.randint(1, 3))))
+                for i in lost2:
+                    qa[i] = np.nan
+                R2 = np.array(qa.slerp_nan(inplace=False), dtype=float) if scn['second'] % 3 == 0 else None
+                if R2 is None:
+                    qa.slerp_nan(inplace=True)
+                    R2 = np.array(qa.array, dtype=float)
+                log.add('second', R2)
+                if not np.all(np.isfinite(R2)):
+                    bad = int(np.nonzero(~np.isfinite(R2).all(axis=1))[0][0])
+                    viol.append(v('slerp_nan', 'nan-left', bad, f'second repair of the same object (rows {lost2} lost after the first repair): row {bad} is still NaN'))
+                else:
+                    valid2 = [i for i in range(n) if i not in set(lost2)]
+                    for i in lost2:
+                        a_, b_ = max(j for j in valid2 if j < i), min(j for j in valid2 if j > i)
+                        ref = qm.slerp_ref(first[a_], first[b_], (i - a_) / float(b_ - a_))
+                        if not qm.rot_angle(R2[i], ref) <= FILL_TOL:
+                            viol.append(v('slerp_nan', 'off-geodesic', i, f'second repair of the same object: row {i} is {qm.rot_angle(R2[i], ref):.3g} rad from the interpolant of rows {a_} and {b_}'))
+                            break
+                    for i in valid2:
+                        if not viol and not (R2[i].tobytes() == first[i].tobytes() or R2[i].tobytes() == (-first[i]).tobytes()):
+                            viol.append(v('slerp_nan', 'valid-row-changed', i, f'second repair of the same object changed valid row {i}'))
+                stats['second_rounds'] = stats.get('second_rounds', 0) + 1
+            except Exception as e:      # noqa: BLE001
+                viol.append(v('slerp_nan', f'crash:{type(e).__name__}', 0, f'second repair of the same object raised {type(e).__name__}: {e}'))
         # --- remove_jumps on the NaN-free record (the link only flipped signs)
         try:
             qa = ahrs.QuaternionArray(sent.copy())
@@ -278,7 +337,7 @@ class Check:
         except Exception as e:          # noqa: BLE001
             viol.append(v('remove_jumps', f'crash:{type(e).__name__}', 0, f'{type(e).__name__}: {e}'))
         nontrivial = bool(lost) or bool(scn['flips'])
-        sig = f"{n}|{scn['rate']}|{scn.get('ortho')}|{scn.get('flip_pattern')}|{lost}|{scn.get('torn', 0)}|{scn['flips'] if scn.get('flip_pattern') == 'random' else ''}|{scn['q0'][0]:.6f}" if nontrivial else None
+        sig = f"{n}|{scn['rate']}|{scn.get('ortho')}|{scn.get('flip_pattern')}|{lost}|{scn.get('torn', 0)}|{scn.get('lead', 0)}|{scn.get('second', 0)}|{scn['flips'] if scn.get('flip_pattern') == 'random' else ''}|{scn['q0'][0]:.6f}" if nontrivial else None
         log.add('viol', [(x['component'], x['symptom'], x['step']) for x in viol])
         return {'violations': viol, 'stats': stats, 'digest': log.digest(), 'sig': sig, 'sim_seconds': float(n) * scn['dt']}
 
